@@ -633,3 +633,54 @@ def strictlist(pid):
         res.floor("strict-only refusals", n, ctx.table("floors").get("strict_refusals", 0))
         return res
     return run
+
+
+def strictalways(pid):
+    """R-STRICTALWAYS: the header-count deviations (wrong DIFAT / FAT / MiniFAT sector count) are refused by strict open
+    whatever else the file looks like.  For each deviation row marked `always` in rules/mode.json the comparison
+    that detects it lies on every path strict validation takes from the entry of the function to its Ok return: no
+    early exit, labelled break or special case (`there is no MiniFAT at all`) leads around it."""
+    def run(ctx):
+        from rules_sink import _edge_label
+        res = RuleResult("R-STRICTALWAYS(%s)" % pid, "the comparison behind each header-count deviation is passed on every strict-mode path from the function's entry to its Ok return")
+        rows = [r for r in ctx.table("mode").get("deviations", []) if r.get("always")]
+        n = 0
+        for row in rows:
+            f = ctx.fx.fns.get(row["function"])
+            if f is None:
+                res.gone.append(row["function"])
+                continue
+            g = guards(ctx, f)
+            v = view(ctx, f)
+            pg = v.pg
+            tests, lenient = set(), set()
+            for b, blk in enumerate(f.blocks):
+                if blk["cleanup"] or blk["term"]["t"] != "switch":
+                    continue
+                for k, tgt in enumerate(f.succ(b)):
+                    val, vals = _edge_label(f, b, k)
+                    atoms = g.describe_all(b, val, vals)
+                    if all(atoms_match(rx, atoms) for rx in row["test"]):
+                        tests.add(("t", b))
+                    if any(re.match(r"^!\(Validation::is_strict\(", a) for a in atoms):
+                        lenient.update(pg.edge_node(b, tgt))
+            if not tests:
+                continue        # the refusal itself is gone or respelled: R-MODE.U's floor and R-MODE see that
+            n += 1
+            oks = []
+            for b, blk in enumerate(f.blocks):
+                if blk["cleanup"]:
+                    continue
+                for i, st in enumerate(blk["stmts"]):
+                    if st["s"] == "assign" and st["place"]["local"] == 0 and not st["place"]["proj"] and st["rv"]["r"] == "aggregate" and st["rv"].get("variant") == "Ok":
+                        oks.append(("s", b, i))
+            reach = pg.reach([pg.entry()], tests | lenient)
+            around = [o for o in oks if o in reach]
+            if around:
+                sp = f.blocks[around[0][1]]["stmts"][around[0][2]]["span"]
+                res.fail(Finding(res.rule, "R-STRICTALWAYS/%s/%s" % (f.path, row["id"]), "strict validation can reach the Ok return of %s without passing the comparison that detects `%s`: on that path the deviation is accepted by strict open" % (f.path.split("::")[-1], row["id"]), f, sp))
+            else:
+                res.ok({"function": f.path, "deviation": row["id"], "comparison_blocks": len(tests), "ok_returns": len(oks)}, nontrivial=True)
+        res.floor("header-count deviations located", n, ctx.table("floors").get("strictalways_rows", 0))
+        return res
+    return run
